@@ -468,6 +468,16 @@ Proof.
   apply Z.leb_le in Hn. rewrite Hn. reflexivity.
 Qed.
 
+Lemma finish_t : forall x y st st1 out, (0 <= x)%Z -> (0 <= y)%Z ->
+  on_top (fun a => Ok (Nat.iter (Z.to_nat x) p_transpose a)) st = Ok st1 ->
+  on_top (fun a => Ok (Nat.iter (Z.to_nat y) p_transpose a)) st1 = Ok out ->
+  (st' <- on_top (fun a => Ok (Nat.iter (Z.to_nat (x + y)) p_transpose a)) st ;; Ok st') = Ok out.
+Proof.
+  intros x y st st1 out Hx Hy S1 S2.
+  rewrite (transposeN_compose x y st out Hx Hy); [reflexivity|].
+  rewrite S1. cbn. exact S2.
+Qed.
+
 Theorem rule_transpose : prule_sound r_transpose.
 Proof.
   intros ns k new H st out R. unfold r_transpose in H.
@@ -490,8 +500,7 @@ Proof.
     inversion H; subst new; clear H.
     rewrite prim_sem_47 in S1, S2.
     rewrite run_transposeN by (auto; lia).
-    rewrite (transposeN_compose 1 1 st out); try lia; [reflexivity|].
-    rewrite S1. cbn. exact S2.
+    exact (finish_t 1 1 st st1 out ltac:(lia) ltac:(lia) S1 S2).
   - destruct (transposeN_of i1) as [x|] eqn:T1; try discriminate.
     rewrite (prim_sem_transposeN _ x) in S1 by auto.
     destruct (0 <=? x)%Z eqn:Px; try discriminate. apply Z.leb_le in Px.
@@ -499,15 +508,13 @@ Proof.
     + apply N.eqb_eq in B2. subst i2. inversion H; subst new; clear H.
       rewrite prim_sem_47 in S2.
       rewrite run_transposeN by (auto; lia).
-      rewrite (transposeN_compose x 1 st out); try lia; [reflexivity|].
-      rewrite S1. cbn. exact S2.
+      exact (finish_t x 1 st st1 out Px ltac:(lia) S1 S2).
     + destruct (transposeN_of i2) as [y|] eqn:T2; try discriminate.
       inversion H; subst new; clear H.
       rewrite (prim_sem_transposeN _ y) in S2 by auto.
       destruct (0 <=? y)%Z eqn:Py; try discriminate. apply Z.leb_le in Py.
       rewrite run_transposeN by (auto; lia).
-      rewrite (transposeN_compose x y st out); try lia; [reflexivity|].
-      rewrite S1. cbn. exact S2.
+      exact (finish_t x y st st1 out Px Py S1 S2).
 Qed.
 
 (* ------------------------------------------------------------------ the proved set *)
@@ -532,16 +539,6 @@ Lemma all_rules_accounted :
   /\ length unsorted_opts = 45%nat
   /\ length optimizations = 45%nat.
 Proof. vm_compute. auto. Qed.
-
-Lemma rname_eqb_eq : forall a b, rname_eqb a b = true -> a = b.
-Proof.
-  intros a b H. unfold rname_eqb in H. apply N.eqb_eq in H.
-  destruct a, b; cbn in H; try reflexivity; try (f_equal; lia); try lia.
-Qed.
-
-Lemma in_unsorted : forall o, In o unsorted_opts ->
-  o = nth (Nat.pred 0) unsorted_opts o \/ In o unsorted_opts.
-Proof. auto. Qed.
 
 (** the proved rules are sound, as they stand in the table *)
 Theorem proved_rules_sound : forall o, In o unsorted_opts -> In (opt_name o) proved -> lrule_sound (snd o).
@@ -617,8 +614,8 @@ Example opt_nonvacuous :
     fix_rules 20 (rules_at Full) ns = Some (used, ns') /\ incl used proved /\
     used = [RTuple 1; RTuple 3; RTranspose; RPopConst] /\
     ns' = [nLast; nTransposeN 2; nDup; nFirstMinIndex] /\
-    run ns [a] = Ok [num 0; Arr TNum [2%nat] [ENum 2; ENum 0]] /\
-    run ns' [a] = Ok [num 0; Arr TNum [2%nat] [ENum 2; ENum 0]].
+    run ns [a] = Ok [num 1; Arr TNum [2%nat] [ENum 2; ENum 0]] /\
+    run ns' [a] = Ok [num 1; Arr TNum [2%nat] [ENum 2; ENum 0]].
 Proof.
   eexists. eexists. split; [vm_compute; reflexivity|].
   split; [intros x Hx; repeat (destruct Hx as [<-|Hx]; [vm_compute; tauto|]); destruct Hx|].
